@@ -419,9 +419,9 @@ impl Check for C12 {
     }
     fn n_runs(&self, thorough: bool) -> u64 {
         if thorough {
-            40_000
+            440_000
         } else {
-            1_500
+            10_000
         }
     }
     fn gen_plan(&self, seed: u64, _idx: u64, _t: bool) -> Value {
@@ -539,9 +539,9 @@ impl Check for C13 {
     }
     fn n_runs(&self, thorough: bool) -> u64 {
         if thorough {
-            40_000
+            440_000
         } else {
-            1_500
+            10_000
         }
     }
     fn gen_plan(&self, seed: u64, _idx: u64, _t: bool) -> Value {
